@@ -64,7 +64,7 @@ def readsig(env, read):
     return k
 
 def worker(args):
-    name, tier, seed = args
+    name, tier, seed, fixture = args
     from vf.models import catalog
     sub = core.Sub()
     env = sx.Env(catalog.by_name(name))
@@ -75,7 +75,7 @@ def worker(args):
     if auto:
         # an object without a primary key cannot be looked up by key inside the session
         reads = [r for r in reads if r[0] not in ('r_get', 'r_idx')]
-    ex = sx.Explorer(env, ops=ops)
+    ex = sx.Explorer(env, fixtures=(fixture,), ops=ops)
     presigs = {}
     seen_states = set()
     def check_state(fixture, hist, depth_full):
@@ -110,9 +110,11 @@ def worker(args):
                 sub.violation(sig, dict(model=name, fixture=fixture, history=small, read=r, in_session=a, fresh_session=b),
                               'after %r the read %r answers %r inside the session but %r from the committed database' % (small, r, a, b))
     full_depth = 1 if tier == 'quick' else 2
+    CORE = ('o2m', 'o2o', 'm2m', 'sym_m2m', 'self_o2m', 'o2m-req')
+    depth = 2 if (tier != 'quick' or name in CORE) else 1
     def on_state(env_, fixture, hist):
         check_state(fixture, hist, len(hist) <= full_depth)
-    ex.run(2, None, order=sx.seeded_order(seed), on_state=on_state)
+    ex.run(depth, None, order=sx.seeded_order(seed), on_state=on_state)
     env.close()
     for s in ex.samples: sub.sample(s)
     return dict(sub=sub.dump(), states=ex.states, transitions=ex.transitions, executions=ex.executions)
@@ -131,9 +133,10 @@ def run(ctx):
     ctx.guard('reads compared', ctx.counters.get('reads_compared', 0), 1000)
     ctx.guard('reads answered from the session cache without a driver call', ctx.counters.get('reads_answered_from_cache', 0), 100)
     ctx.cov['per_model'] = agg['per_model']
-    ctx.cov['bounds'] = ('all distinct states reachable by histories of depth <= 2 from both fixtures; reads: complete family at depth <= %d, '
-                         'reads touching the objects/attributes/entities of the history beyond that' % (1 if ctx.quick else 2))
-    if ctx.quick: ctx.cap('quick tier: at depth 2 only reads that touch objects, attributes or entities named in the history')
+    ctx.cov['bounds'] = ('quick: all distinct states of depth <= 1 for every model with the complete read family, plus depth 2 for the core models '
+                         '(o2m, o2m-req, o2o, m2m, sym_m2m, self_o2m) with the reads that name an object/attribute/entity of the history; '
+                         'thorough: depth 2 for every model with the complete read family') 
+    if ctx.quick: ctx.cap('quick tier: depth 2 only for the core models and only reads naming objects/attributes/entities of the history')
     ctx.assume('reference = the same read in a fresh session after the history is committed; SQLite only')
     return dict(states=agg['states'], transitions=agg['transitions'],
                 traces_validated_against_impl=agg['executions'] + ctx.counters.get('reads_compared', 0))
